@@ -15,7 +15,8 @@ class IndentationFeatures(object):
     @property
     def is_fitted(self):
         if self.is_valid:
-            return self.dataset.fit_properties["success"]
+            # "success" is only set once a fit has been performed
+            return self.dataset.fit_properties.get("success", False)
         else:
             return False
 
